@@ -1132,7 +1132,8 @@ def main():
            "dtype_flagged_functions": sorted({r[0] for r in dt_rows}),
            "signatures": {f.qual: {"params": [(p, f.ptypes[p]) for p in f.params],
                                    "ret": list(f.ret) if isinstance(f.ret, tuple) else [f.ret],
-                                   "reads": sorted(f.reads), "junk_sites": sorted(f.junk_sites)} for f in ok}}
+                                   "reads": sorted(f.reads), "junk_sites": sorted(f.junk_sites),
+                                   "mutates": sorted(MUTATES.get(f.name, ()))} for f in ok}}
     with open(os.path.join(outdir, "report.json"), "w") as fh:
         json.dump(rep, fh, indent=1, sort_keys=True)
     nref = sum(1 for v in report.values() if v != "ok")
